@@ -114,7 +114,7 @@ pub const FILE_NAMES: &[&str] = &["f.c", "main.rs", "Makefile", "README", "t.txt
 /// U+F7xx stands for the raw byte 0xxx (see ws::unesc): Latin-1 "café.txt", "dép", a lone continuation byte, 0xFF
 pub const RAW_FILE_NAMES: &[&str] = &["caf\u{f7e9}.txt", "stra\u{f7df}e.h", "x\u{f780}y.c", "\u{f7ff}lead", "uml\u{f7e4}\u{f7fc}.c"];
 pub const RAW_DIR_NAMES: &[&str] = &["d\u{f7e9}p", "\u{f7c0}dir"];
-pub const NASTY_NAMES: &[&str] = &["w s.txt", "tab\there", "uml\u{e4}ut.c", "q\"uote", "back\\slash", "sp ace/f", "gar\u{e7}on.c", "stra\u{df}e.h", "bell\u{7}.txt"];
+pub const NASTY_NAMES: &[&str] = &["w s.txt", "tab\there", "uml\u{e4}ut.c", "q\"uote", "back\\slash", "sp ace/f", "gar\u{e7}on.c", "stra\u{df}e.h", "bell\u{7}.txt", "trail\\"];
 
 #[derive(Clone, Copy, Debug, PartialEq, Serialize, Deserialize)]
 pub enum HeaderKind {
